@@ -1,5 +1,6 @@
 """Property registry: family, engines, bounds, trusted base per property."""
 from . import families
+import re
 
 TRUSTED_COMMON = [
     "rustc macro expansion and -Zunpretty=expanded print the proc-macro's tokens faithfully",
@@ -88,6 +89,13 @@ def _c04(tier, seed):
 
 def _c06(tier, seed):
     ps = families.c06(tier, seed) + families.wide("C06")
+    # the native replay instantiates every third generic program with a compound value type: its own Debug output
+    # depends on the formatter's flags ({:#?}), so a path that loses them shows up (Verus is parametric in the type)
+    for i, p in enumerate(ps):
+        nameless = "name=False" in (p.note or "") or any(v.s("debug", "name") is False for v in p.variants)
+        if p.generics and (i % 3 == 0 or nameless) and all(re.match(r"^T\d$", g) for g in p.generics):
+            for g in (p.generics if nameless else p.generics[:1]):
+                p.inst[g] = "Option<u8>"
     ps = ps + families.own_placements("C06", ps) + families.own_spellings("C06", "Debug") + families.bound_twins(ps)
     return ps + families.canaries_debug(ps)
 
